@@ -17,7 +17,6 @@ from __future__ import annotations
 
 import json
 import os
-import subprocess
 from pathlib import Path
 
 from vp import env, ref_sched
@@ -137,12 +136,11 @@ def run_case(case, wctx):
     e.update({"PATH": f"{d / 'bin'}:{e['PATH']}", "VP_SCHED_STATE": str(d / "state.json"),
               "VP_ARGV_LOG": str(d / "argv.log"), "VP_BODY_LOG": str(d / "body.log")})
     wd = 240 if wctx.tier == "quick" else 600
-    watchdog = False
-    try:
-        p = subprocess.run([env.PY, "-m", "vp.c28_runner", str(d / "spec.json"), str(d / "out.json")],
-                           cwd=str(env.VERIF), env=e, capture_output=True, timeout=wd)
-    except subprocess.TimeoutExpired:
-        watchdog = True
+    e["VP_RUNNER_DEADLINE"] = str(wd + 20)   # the runner also ends itself (and when its parent dies)
+    # own session; the whole process group (runner, batch scripts, fakes) is killed afterwards
+    rc, _, perr = env.run_group([env.PY, "-m", "vp.c28_runner", str(d / "spec.json"), str(d / "out.json")],
+                                wd, cwd=str(env.VERIF), env=e)
+    watchdog = rc == "timeout"
     calls = read_log(d / "argv.log")
     st = json.loads((d / "state.json").read_text())
     events = st["events"]
@@ -168,7 +166,7 @@ def run_case(case, wctx):
     if out is None:
         bj = st.get("budget_exceeded")
         if not bj:
-            return {**res, "verdict": "inconclusive", "why": "runner died: " + p.stderr.decode()[-600:]}
+            return {**res, "verdict": "inconclusive", "why": f"runner died rc={rc}: " + perr.decode(errors="replace")[-600:]}
         j = st["jobs"][bj]
         sc = case["scripts"][j["logical"] % len(case["scripts"])]
         cur = sc[min(j["cursor"], len(sc) - 1)]["st"]
@@ -270,7 +268,7 @@ def run(ctx):
                 "options in short/long form; non-trivial = >=2 response steps or a user option; distinct = distinct "
                 "scenario")
     results = ctx.pmap("vp.props.c28:batch", [{"cases": cases[i:i + per]} for i in range(0, n, per)],
-                       nproc=8 if quick else 16, timeout=900 if quick else 10800)
+                       nproc=int(os.environ.get("VP_NPROC") or (8 if quick else 16)), timeout=900 if quick else 10800)
     hist = {}
     for b in results:
         for r in b.get("multi", [b]):
